@@ -163,7 +163,7 @@ unexpected_cfgs = { level = "allow", check-cfg = ['cfg(kani)'] }
         open(os.path.join(self.dir, "src", "support.rs"), "w").write(SUPPORT_RS + self.extra_support)
         self._write_lib()
         for p in self.progs:
-            hdr = ("#![deny(warnings)]\n#![allow(non_camel_case_types, non_snake_case)]\n//\n//\n" if self.strict else
+            hdr = ("#![deny(warnings)]\n#![allow(non_camel_case_types, non_snake_case, non_upper_case_globals)]\n//\n//\n" if self.strict else
                    "#![allow(unused, non_camel_case_types, non_snake_case, clippy::all)]\nuse crate::support::*;\nuse core::cmp::Ordering;\nuse core::hash::{Hash, Hasher};\n")
             open(os.path.join(self.dir, "src", p.name + ".rs"), "w").write(hdr + p.text)
 
@@ -403,7 +403,10 @@ def run_family(ctx, pid, progs, canary=None, per=60, compile_violation=True, ext
             res = {}
         if ci == 0 and canary is not None:
             can = [h for h in res if h.startswith(canary.name + "::")]
-            if not can or all(res[h]["ok"] for h in can):
+            if canary.name in c.excluded:
+                # the canary itself does not compile against this tree: vacuity guard unavailable, other results still stand
+                ctx.undecided.append("canary program rejected by rustc on this tree (vacuity guard not exercised)")
+            elif not can or all(res[h]["ok"] for h in can):
                 raise Undecided("canary contract was not refuted: the Kani pipeline is blind")
             for h in can:
                 del res[h]
